@@ -66,13 +66,14 @@ Qed.
 (* What WriteSegment does when len(data)+2 >= 65536: the length field is silently reduced
    modulo 2^16 (no error is returned), and the walkers then do NOT see the segment the caller
    wrote. No encoder of the library reaches this through WriteSegment (its payloads are at
-   most 17+256 bytes: DQT, DHT, SOF, SOS, APP0 with 1 or 3 components); the same uint16
-   narrowing in jpeg2000.writeTLM is reachable, see the findings list. *)
+   most 17+256 bytes: DQT, DHT, SOF, SOS, APP0 with 1 or 3 components). The same uint16
+   narrowing in jpeg2000.writeTLM needs more than 10921 tile-parts, which is outside C16's
+   quantifier (at most 64 tiles); the harness keeps it as a note. *)
 Theorem segment_length_field_wraps : forall data,
   segment_length_field data = (zlen data + 2) mod 65536.
 Proof. reflexivity. Qed.
 
-Theorem segment_length_overflow_refuted : forall m data rest,
+Theorem segment_length_overflow_wraps : forall m data rest,
   0 <= m < 256 -> 65536 <= zlen data + 2 ->
   read_segment (write_segment (65280 + m) data ++ rest) <> SegOk m data rest.
 Proof.
